@@ -58,6 +58,25 @@ Payload forms (anything else ⇒ the function is `untranslated: <reason>`, no de
                                                                       established; `raise E(...)`; `<M> += e`, `<M> -= e`,
                                                                       `<M> = <M> + e`, `<M> = <M> - e`, `<M> = e` with
                                                                       e = r | -r; pass; continue
+                                                                      HELPERS of the loop body (the cascade extracted into
+                                                                      a function): `<names> = f(<args>)` with f a plain
+                                                                      module-level `def` of pdesolver.py (undecorated, no
+                                                                      *args, no global; defined once) and every argument the
+                                                                      loop variable, one of its components or an accumulator:
+                                                                      the body of f is enumerated IN PLACE of the call (its own
+                                                                      scope: parameters only), `return` hands back term
+                                                                      components, `None` or accumulators.  Both shapes work:
+                                                                      `Mt, Rt = _classify(term)` followed by `if Mt is not
+                                                                      None: M += Mt` (`x is [not] None` is decided per path;
+                                                                      a component is known not to be None only under a guard
+                                                                      `getattr(x, 'ndim', None) == n`), and
+                                                                      `M, RHS = _accumulate(M, RHS, term)` (an accumulator the
+                                                                      helper updates MUST be returned and assigned back to
+                                                                      its own name: `+=` may or may not be in place).  The
+                                                                      paths / guards / updates emitted are those of the
+                                                                      inlined cascade (byte-identical for a faithful
+                                                                      extraction).  Helper calls outside the loop body, and
+                                                                      in the two other solvers, stay untranslated.
     <x> = <s>(<arg>, ...)    arg = <M> | -<M> | <a> | -<a>            solver call (after the loop, no keywords)
     <v>._value = [TrackedArray(] np.reshape(<x>, <v>.domain.dims [+ k]) [)]   (also <x>.reshape(...); order='C' only)
     return <name>
@@ -93,10 +112,14 @@ from fractions import Fraction
 
 sys.path.insert(0, os.path.dirname(os.path.abspath(__file__)))
 import tinert                                                  # noqa: E402
+import tnum                                                    # noqa: E402  (helper definition checks only)
 
 
 class Bad(Exception):
     pass
+
+
+HSCOPE = "\0helper"      # key of the local environment while the body of a helper of the loop is enumerated
 
 
 def lstr(s):
@@ -553,10 +576,14 @@ class SolvePDE:
         self.seq.append("loop")
 
     def ref(self, node, lenv):
-        if is_name(node, self.tvar):
+        if HSCOPE not in lenv and is_name(node, self.tvar):
             return ("term",)
-        if is_name(node) and node.id in lenv:
-            return lenv[node.id]
+        if is_name(node) and node.id != HSCOPE and node.id in lenv:
+            v = lenv[node.id]
+            if v[0] in ("term", "comp"):
+                return v
+            if v[0] == "none":
+                raise Bad(f"`{ast.unparse(node)}` is None on this path")
         raise Bad(f"`{ast.unparse(node)}` is not the loop variable or one of its components")
 
     def atom(self, t, guards, lenv):
@@ -595,6 +622,19 @@ class SolvePDE:
                             new.append((g + g2, o2))
                 alts = new
             return alts
+        if isinstance(t, ast.Compare) and len(t.ops) == 1 and isinstance(t.ops[0], (ast.Is, ast.IsNot)) \
+                and isinstance(t.comparators[0], ast.Constant) and t.comparators[0].value is None \
+                and is_name(t.left) and t.left.id != HSCOPE and t.left.id in lenv:
+            # `x is None` / `x is not None` for a name a helper returned: decided on each path (no guard is recorded);
+            # a term / component is known not to be None only where `getattr(x, 'ndim', None) == n` holds
+            v = lenv[t.left.id]
+            if v[0] == "none":
+                isnone = True
+            elif v[0] in ("term", "comp") and any(g[0] == "ndimEq" and g[1] == v and val for g, val in guards):
+                isnone = False
+            else:
+                raise Bad(f"test `{ast.unparse(t)}`: not decided on this path")
+            return [([], isnone == isinstance(t.ops[0], ast.Is))]
         a, pos = self.atom(t, guards, lenv)
         for known, val in guards:
             if known == a:                       # already decided on this path
@@ -607,17 +647,106 @@ class SolvePDE:
             neg, node = True, node.operand
         return self.ref(node, lenv), neg
 
-    def acc_of(self, node):
+    def acc_of(self, node, lenv=None):
+        if lenv is not None and HSCOPE in lenv:            # inside a helper: its own parameters only
+            v = lenv.get(node.id) if is_name(node) and node.id != HSCOPE else None
+            return v[1] if v is not None and v[0] == "acc" else None
         if is_name(node) and self.env.get(node.id, (None,))[0] == "acc":
             return self.env[node.id][1]
         return None
 
+    # ---- the classification cascade extracted into a helper (`Mterm, RHSterm = _classify(term)`,
+    #      `M, RHS = _accumulate(M, RHS, term)`): the helper's body is enumerated in place of the call
+    def loop_helper(self, st, lenv):
+        """(FunctionDef, targets) when `st` is `<name(s)> = f(<args>)` with f a module-level function of pdesolver.py"""
+        if not (isinstance(st, ast.Assign) and len(st.targets) == 1 and isinstance(st.value, ast.Call)
+                and is_name(st.value.func)):
+            return None
+        name = st.value.func.id
+        if name not in self.mod.fns or name in self.mod.imports or name in self.env or name in self.params \
+                or name == self.tvar or name in lenv:
+            return None
+        t = st.targets[0]
+        targets = [t] if is_name(t) else list(t.elts) if isinstance(t, ast.Tuple) else None
+        if targets is None or not all(is_name(e) for e in targets):
+            raise Bad(f"`{ast.unparse(st)[:60]}`: targets of a helper call")
+        return self.mod.fns[name], targets, isinstance(t, ast.Tuple)
+
+    def enter_helper(self, st, found, rest, guards, lenv, upds, out):
+        fn, targets, is_tuple = found
+        h = lenv.get(HSCOPE)
+        depth = (h["depth"] + 1) if h else 1
+        chain = (h["chain"] if h else []) + [fn]
+        if depth > tnum.HELPER_DEPTH or any(f is fn for f in (h["chain"] if h else [])):
+            raise Bad(f"helper {fn.name}: recursion / nesting deeper than {tnum.HELPER_DEPTH}")
+        try:
+            tnum.check_helper_def(fn)
+        except tnum.Bad as ex:
+            raise Bad(str(ex))
+        c = st.value
+        a = fn.args
+        if c.keywords or any(isinstance(x, ast.Starred) for x in c.args) or a.posonlyargs or a.kwonlyargs or a.defaults \
+                or len(a.args) != len(c.args):
+            raise Bad(f"call of {fn.name}: only plain positional arguments are understood")
+        scope = {}
+        for p, x in zip(a.args, c.args):
+            k = self.acc_of(x, lenv)
+            scope[p.arg] = ("acc", k) if k is not None else self.ref(x, lenv)
+        if len(set(scope)) != len(a.args) or len({v for v in scope.values() if v[0] == "acc"}) != \
+                len([v for v in scope.values() if v[0] == "acc"]):
+            raise Bad(f"call of {fn.name}: the same accumulator is passed twice")
+        scope[HSCOPE] = {"fn": fn, "depth": depth, "chain": chain, "updated": frozenset(),
+                         "cont": (targets, is_tuple, rest, lenv, st)}
+        body = list(fn.body)
+        if body and is_docstring(body[0]):
+            body = body[1:]
+        tnum.note_inlined(self.fn.name, "pdesolver", fn)
+        return self.enum(body, guards, scope, upds, out)
+
+    def leave_helper(self, st, guards, lenv, upds, out):
+        """`return <value(s)>` inside a helper: bind the caller's targets and go on with the caller's statements"""
+        h = lenv[HSCOPE]
+        targets, is_tuple, rest, clenv, call_st = h["cont"]
+        v = st.value
+        if v is None:
+            raise Bad(f"helper {h['fn'].name}: bare return")
+        elts = list(v.elts) if isinstance(v, ast.Tuple) else [v]
+        if (isinstance(v, ast.Tuple)) != is_tuple or len(elts) != len(targets):
+            raise Bad(f"helper {h['fn'].name}: `{ast.unparse(st)}` does not fit the targets of `{ast.unparse(call_st)[:50]}`")
+        vals = []
+        for e in elts:
+            if isinstance(e, ast.Constant) and e.value is None:
+                vals.append(("none",))
+                continue
+            k = self.acc_of(e, lenv)
+            vals.append(("acc", k) if k is not None else self.ref(e, lenv))
+        returned = {x[1] for x in vals if x[0] == "acc"}
+        if not h["updated"] <= returned:
+            raise Bad(f"helper {h['fn'].name} updates an accumulator that it does not return (`+=` may or may not be in place)")
+        new = dict(clenv)
+        for t, x in zip(targets, vals):
+            if x[0] == "acc":
+                if self.acc_of(t, clenv) != x[1]:
+                    raise Bad(f"`{ast.unparse(call_st)[:50]}`: accumulator {x[1]} is not assigned back to its own name")
+            else:
+                if self.acc_of(t, clenv) is not None or (HSCOPE not in clenv and (t.id in self.env or t.id in self.params
+                                                                                   or t.id == self.tvar)):
+                    raise Bad(f"`{ast.unparse(call_st)[:50]}`: assignment to the existing name {t.id}")
+                new[t.id] = x
+        if HSCOPE in clenv and h["updated"]:
+            ch = dict(clenv[HSCOPE])
+            ch["updated"] = ch["updated"] | h["updated"]
+            new[HSCOPE] = ch
+        return self.enum(rest, guards, new, upds, out)
+
     def enum(self, stmts, guards, lenv, upds, out):
         if not stmts:
+            if HSCOPE in lenv:
+                raise Bad(f"helper {lenv[HSCOPE]['fn'].name} may end without `return`")
             out.append((guards, ("updates", upds)))
             return
         st, rest = stmts[0], stmts[1:]
-        inert = tinert.analysis(self.fn)
+        inert = tinert.analysis(lenv[HSCOPE]["fn"] if HSCOPE in lenv else self.fn)
         if inert.skip(st):                      # inert statement (tinert.py): no path, no update
             return self.enum(rest, guards, lenv, upds, out)
         if mentions_state(st):
@@ -636,7 +765,14 @@ class SolvePDE:
             return
         if isinstance(st, ast.Pass):
             return self.enum(rest, guards, lenv, upds, out)
+        if isinstance(st, ast.Return) and HSCOPE in lenv:
+            return self.leave_helper(st, guards, lenv, upds, out)
+        found = self.loop_helper(st, lenv)
+        if found is not None:
+            return self.enter_helper(st, found, rest, guards, lenv, upds, out)
         if isinstance(st, ast.Continue):
+            if HSCOPE in lenv:
+                raise Bad("continue inside a helper")
             out.append((guards, ("updates", upds)))
             return
         if isinstance(st, ast.Raise):
@@ -650,39 +786,52 @@ class SolvePDE:
             out.append((guards, ("raise", e.id)))
             return
         if isinstance(st, ast.AugAssign):
-            k = self.acc_of(st.target)
+            k = self.acc_of(st.target, lenv)
             if k is None:
                 raise Bad(f"`{ast.unparse(st)}`: the target is not an accumulator")
             op = {ast.Add: "iadd", ast.Sub: "isub"}.get(type(st.op))
             if op is None:
                 raise Bad(f"`{ast.unparse(st)}`: operator")
             r, neg = self.operand(st.value, lenv)
-            return self.enum(rest, guards, lenv, upds + [(k, op, neg, r)], out)
+            return self.enum(rest, guards, self.touched(lenv, k), upds + [(k, op, neg, r)], out)
         if isinstance(st, ast.Assign) and len(st.targets) == 1:
             t, v = st.targets[0], st.value
-            if isinstance(t, ast.Tuple) and all(is_name(e) for e in t.elts) and is_name(v, self.tvar):
+            in_helper = HSCOPE in lenv
+            is_term = (is_name(v) and v.id != HSCOPE and lenv.get(v.id) == ("term",)) if in_helper else is_name(v, self.tvar)
+            if isinstance(t, ast.Tuple) and all(is_name(e) for e in t.elts) and is_term:
                 r = ("term",)
                 if (("isTuple", r), True) not in guards or (("lenEq", r, len(t.elts)), True) not in guards:
-                    raise Bad(f"`{ast.unparse(st)}` where len({self.tvar}) == {len(t.elts)} is not established")
+                    raise Bad(f"`{ast.unparse(st)}` where len({ast.unparse(v)}) == {len(t.elts)} is not established")
                 for i, e in enumerate(t.elts):
-                    if e.id in self.env or e.id in self.params or e.id == self.tvar:
+                    if (e.id in lenv) if in_helper else (e.id in self.env or e.id in self.params or e.id == self.tvar):
                         raise Bad(f"unpacking into the existing name {e.id}")
                     lenv[e.id] = ("comp", i)
                 return self.enum(rest, guards, lenv, upds, out)
-            k = self.acc_of(t)
+            k = self.acc_of(t, lenv)
             if k is not None:
                 if isinstance(v, ast.BinOp) and isinstance(v.op, (ast.Add, ast.Sub)):
-                    if self.acc_of(v.left) == k:
+                    if self.acc_of(v.left, lenv) == k:
                         r, neg = self.operand(v.right, lenv)
                         op = "add" if isinstance(v.op, ast.Add) else "sub"
-                        return self.enum(rest, guards, lenv, upds + [(k, op, neg, r)], out)
-                    if self.acc_of(v.right) == k and isinstance(v.op, ast.Add):
+                        return self.enum(rest, guards, self.touched(lenv, k), upds + [(k, op, neg, r)], out)
+                    if self.acc_of(v.right, lenv) == k and isinstance(v.op, ast.Add):
                         r, neg = self.operand(v.left, lenv)
-                        return self.enum(rest, guards, lenv, upds + [(k, "add", neg, r)], out)
+                        return self.enum(rest, guards, self.touched(lenv, k), upds + [(k, "add", neg, r)], out)
                     raise Bad(f"`{ast.unparse(st)}`")
                 r, neg = self.operand(v, lenv)
-                return self.enum(rest, guards, lenv, upds + [(k, "assign", neg, r)], out)
+                return self.enum(rest, guards, self.touched(lenv, k), upds + [(k, "assign", neg, r)], out)
         raise Bad(f"loop body statement (line {st.lineno}): {ast.unparse(st)[:60]}")
+
+    @staticmethod
+    def touched(lenv, k):
+        """inside a helper: remember that accumulator k was updated (it must be handed back to the caller)"""
+        if HSCOPE not in lenv:
+            return lenv
+        new = dict(lenv)
+        h = dict(lenv[HSCOPE])
+        h["updated"] = h["updated"] | {k}
+        new[HSCOPE] = h
+        return new
 
     # ---- output
     def emit(self):
@@ -1258,6 +1407,7 @@ def generate(repo):
     src = os.path.join(repo, "src", "pyfvtool")
 
     tinert.set_repo(repo)
+    tnum.set_source(src)
 
     def parse(f):
         return tinert.register(ast.parse(open(os.path.join(src, f)).read()))
@@ -1319,7 +1469,7 @@ def main():
     repo = os.environ.get("VERIF_REPO", "/repo")
     dst = sys.argv[1]
     text, status = generate(repo)
-    status = tinert.annotate(status)
+    status = tnum.annotate_helpers(tinert.annotate(status))
     write_if_changed(dst, text)
     base = os.path.splitext(os.path.basename(dst))[0].lower()
     write_if_changed(os.path.join(os.path.dirname(os.path.abspath(dst)), f"{base}_status.json"),
